@@ -7,7 +7,7 @@ EXPLANATION = (
     "trailing empty rows/cells (styled empties only when aggressive), keeps every value at its coordinates and is idempotent - real table.py/row.py code "
     "on the typed-element layer. "
 )
-OUTSIDE = "set_span with merge=True, spans on tables larger than 3x3, to_csv/import_from_csv (csv is C), repeats > 2 for transpose"
+OUTSIDE = "set_span with merge=True, spans on tables larger than 3x3, the csv module itself and import_from_csv (csv.Sniffer/reader/writer are heuristics and C code: the export obligation stops at the rows handed to the writer), repeats > 2 for transpose"
 ASSUMPTIONS = ["rectangular two row-runs x two cell-runs template with an optional run of trailing empty (possibly styled) cells and trailing empty rows"]
 TRUSTED = _T
 _E = ["src/odfdo/table.py:Table.transpose,rstrip,is_empty,optimize_width,_optimize_width_*", "src/odfdo/row.py:Row.rstrip,is_empty,extend_cells,traverse,minimized_width,force_width,last_cell"] + KT_ENCODES[2:3]
@@ -34,3 +34,10 @@ for _r0 in (1, 2):
                                extra={"r0": _r0, "c0": _c0}, replay="r_h_span:span_area", weight=130, tier="quick" if (_r0, _c0) in ((1, 2), (2, 1)) else "thorough",
                                bounds=f"3x3 table stored as rows [A x {_r0}, B x {3 - _r0}] of cells [v x {_c0}, w x {3 - _c0}]; every span area of at least 2 cells inside it (symbolic corners): set_span, overlapping set_span, del_span",
                                encodes=_SENC, stubs=["/verif/shadow/lxml (symdom)"]))
+
+for _k in range(7):
+    OBLIGATIONS.append(Obl(name=f"csv_rows_v{_k}", module="h_span", func="csv_rows", shadow=True, timeout=300, env={"VERIF_K0": str(_k)}, extra={"k0": _k},
+                           replay="r_h_span:csv_rows", weight=45, tier="quick" if _k in (0, 1, 4) else "thorough",
+                           bounds="to_csv() and str(table) on [v0 x rep, v1] / [v0]: v0 the %d-th (per process), v1 any (symbolic index) of 0, False, '', ' b ', None, Decimal('1.5'), 0.0; rep in 1..2" % _k,
+                           encodes=["src/odfdo/table.py:Table.to_csv,__str__,iter_values", "src/odfdo/row.py:Row.get_values", "src/odfdo/element_typed.py:ElementTyped.get_value"],
+                           stubs=["/verif/shadow/lxml (symdom)", "h_span._CsvStub: the csv module replaced by a recorder of the rows given to writerow (csv is C code)"]))
